@@ -335,10 +335,10 @@ theorem uncovered_request_raises (reg : List EquivRec) (m : Mode) (xdim tdim : D
 theorem uncovered_request_returns_nothing {K : Type} [Add K] [Sub K] [Mul K] [Div K] [OfNat K 0]
     [OfNat K 1] [BEq K] [RPow K] [HasSqrt K] [OfRat K] [OfBits K]
     (pre : Prefixes K) (t : Lut K) (reg : List EquivRec) (consts params : List (String × K))
-    (m : Mode) (u target : UnitV K) (uSelf xv : K) (name : String)
+    (m : Mode) (u target : UnitV K) (xv : K) (name : String) (pr : Option Err)
     (e : EquivRec) (hf : findEquiv reg name = some e) (hne : u.dim ≠ target.dim)
     (hun : u.dim ∉ e.dims ∨ target.dim ∉ e.dims) :
-    convertValue pre t reg consts params m u uSelf xv target (some name) = .error .InvalidUnitEquivalence := by
+    convertValue pr pre t reg consts params m u xv target (some name) = .error .InvalidUnitEquivalence := by
   unfold convertValue
   rw [(uncovered_request_raises reg m u.dim target.dim name e hf hne hun).2]
 
@@ -387,12 +387,12 @@ theorem covered_request_converts (e : EquivRec) (he : e ∈ equivalences) (m : M
     magnitude of the input — over any field, for every spelling (scale) of either unit, every
     value and every keyword.  (Offset *targets* go through the affine rule of C03.) -/
 theorem convertValue_si {K : Type} [Lean.Grind.Field K] [BEq K] [LawfulBEq K] [RPow K] [HasSqrt K]
-    [OfRat K] [OfBits K]
+    [OfRat K] [OfBits K] (pr : Option Err)
     (pre : Prefixes K) (t : Lut K) (reg : List EquivRec) (consts supplied : List (String × K))
-    (m : Mode) (u target : UnitV K) (uSelf xv : K) (eqv : Option String) (f : Formula)
+    (m : Mode) (u target : UnitV K) (xv : K) (eqv : Option String) (f : Formula)
     (hroute : inUnitsRoute reg m u.dim target.dim eqv = .ok (.via f))
     (hu : u.offset = 0) (ht : target.offset = 0) (hs : target.scale ≠ 0) (v : K)
-    (h : convertValue pre t reg consts supplied m u uSelf xv target eqv = .ok v) :
+    (h : convertValue pr pre t reg consts supplied m u xv target eqv = .ok v) :
     toBase target.scale target.offset v
       = f.eval (mkEnv consts (effectiveParams reg eqv supplied) (toBase u.scale u.offset xv)) := by
   unfold convertValue at h
@@ -401,8 +401,6 @@ theorem convertValue_si {K : Type} [Lean.Grind.Field K] [BEq K] [LawfulBEq K] [R
   · by_cases h2 : (f.atoms.all (bound consts (effectiveParams reg eqv supplied))) = true
     · have h3 : (u.offset != 0) = false := by simp [hu]
       simp only [h1, h2, h3, Bool.not_true, Bool.false_and, Bool.false_eq_true, if_false] at h
-      split at h
-      · cases h
       have hd : ((target.dim != target.dim) = false) := by simp
       simp only [toValue, inUnits, getConversionFactor, hd, ht, Bool.false_eq_true, if_false,
         beq_self_eq_true, Bool.and_self, if_true, Except.map, applyFactor] at h
@@ -416,19 +414,24 @@ theorem convertValue_si {K : Type} [Lean.Grind.Field K] [BEq K] [LawfulBEq K] [R
   · simp [h1] at h
 
 /-- an input on an offset scale is refused (no number is produced) whenever the chain touches
-    the input with multiply / divide / subtract / add -/
+    the input with multiply / divide / subtract / add — or with power / sqrt in a library whose
+    `Unit.__pow__` refuses offset units -/
 theorem offset_input_refused {K : Type} [Add K] [Sub K] [Mul K] [Div K] [OfNat K 0] [OfNat K 1]
-    [BEq K] [RPow K] [HasSqrt K] [OfRat K] [OfBits K]
+    [BEq K] [RPow K] [HasSqrt K] [OfRat K] [OfBits K] (pr : Option Err)
     (pre : Prefixes K) (t : Lut K) (reg : List EquivRec) (consts supplied : List (String × K))
-    (m : Mode) (u target : UnitV K) (uSelf xv : K) (eqv : Option String) (f : Formula)
+    (m : Mode) (u target : UnitV K) (xv : K) (eqv : Option String) (f : Formula)
     (hroute : inUnitsRoute reg m u.dim target.dim eqv = .ok (.via f))
-    (hx : f.xInArith = true) (ho : (u.offset != 0) = true) (v : K) :
-    convertValue pre t reg consts supplied m u uSelf xv target eqv ≠ .ok v := by
+    (hx : (f.xInArith || (pr.isSome && f.xInPow)) = true) (ho : (u.offset != 0) = true) (v : K) :
+    convertValue pr pre t reg consts supplied m u xv target eqv ≠ .ok v := by
   unfold convertValue
   simp only [hroute]
   by_cases h1 : acceptsParams reg eqv (supplied.map (·.1)) = true
   · by_cases h2 : (f.atoms.all (bound consts (effectiveParams reg eqv supplied))) = true
-    · simp [h1, h2, ho, hx]
+    · by_cases h3 : f.xInArith = true
+      · simp [h1, h2, ho, h3]
+      · have h4 : (pr.isSome && f.xInPow) = true := by simpa [h3] using hx
+        simp only [Bool.and_eq_true] at h4
+        simp [h1, h2, ho, h3, h4.1, h4.2]
     · simp [h1, h2]
   · simp [h1]
 
@@ -436,57 +439,80 @@ theorem offset_input_refused {K : Type} [Add K] [Sub K] [Mul K] [Div K] [OfNat K
     multiply / divide / subtract, in both modes -/
 theorem table_offset_refusal :
     (equivalences.filter (fun e => e.name != "effective_temperature")).all
-      EquivRec.refusesOffsetInput = true := by
+      (EquivRec.refusesOffsetInput false) = true := by
   decide +kernel
 
-/-- full statement: a reading on an offset temperature scale (°C, °F) is never silently
-    converted as if it were absolute — no covered request with such an input yields a number -/
-def C09_offset_full : Prop :=
+/-- every chain of every equivalence touches its input with multiply / divide / subtract or
+    with power / sqrt, in both modes -/
+theorem table_offset_refusal_pow :
+    equivalences.all (EquivRec.refusesOffsetInput true) = true := by
+  decide +kernel
+
+/-- full statement, for a library whose `power`/`sqrt` treat offset units as `pr` says: a
+    reading on an offset temperature scale (°C, °F) is never silently converted as if it were
+    absolute — no covered request with such an input yields a number.  The statement about the
+    library being checked is `C09_offset_full Generated.powRefuses`. -/
+def C09_offset_full (pr : Option Err) : Prop :=
   ∀ e ∈ equivalences, ∀ (m : Mode) (a b : Dim), a ∈ e.dims → b ∈ e.dims → a ≠ b →
     ∀ (K : Type) [Add K] [Sub K] [Mul K] [Div K] [OfNat K 0] [OfNat K 1] [BEq K] [RPow K]
       [HasSqrt K] [OfRat K] [OfBits K]
       (pre : Prefixes K) (t : Lut K) (consts supplied : List (String × K)) (u target : UnitV K)
-      (uSelf xv : K), u.dim = a → target.dim = b → (u.offset != 0) = true →
-        ∀ v, convertValue pre t equivalences consts supplied m u uSelf xv target (some e.name) ≠ .ok v
+      (xv : K), u.dim = a → target.dim = b → (u.offset != 0) = true →
+        ∀ v, convertValue pr pre t equivalences consts supplied m u xv target (some e.name) ≠ .ok v
 
-/-- it holds for every equivalence except `effective_temperature` (explicit guard) -/
-theorem C09_offset_partial :
-    ∀ e ∈ equivalences, e.name ≠ "effective_temperature" →
+/-- whatever `power` does: it holds for every equivalence except `effective_temperature`,
+    and for that one too when `power` refuses offset units (explicit guard) -/
+theorem C09_offset_partial (pr : Option Err) :
+    ∀ e ∈ equivalences, (e.name ≠ "effective_temperature" ∨ pr.isSome = true) →
     ∀ (m : Mode) (a b : Dim), a ∈ e.dims → b ∈ e.dims → a ≠ b →
     ∀ (K : Type) [Add K] [Sub K] [Mul K] [Div K] [OfNat K 0] [OfNat K 1] [BEq K] [RPow K]
       [HasSqrt K] [OfRat K] [OfBits K]
       (pre : Prefixes K) (t : Lut K) (consts supplied : List (String × K)) (u target : UnitV K)
-      (uSelf xv : K), u.dim = a → target.dim = b → (u.offset != 0) = true →
-        ∀ v, convertValue pre t equivalences consts supplied m u uSelf xv target (some e.name) ≠ .ok v := by
-  intro e he hne m a b ha hb hab K _ _ _ _ _ _ _ _ _ _ _ pre t consts supplied u target uSelf xv hua htb ho v
+      (xv : K), u.dim = a → target.dim = b → (u.offset != 0) = true →
+        ∀ v, convertValue pr pre t equivalences consts supplied m u xv target (some e.name) ≠ .ok v := by
+  intro e he hguard m a b ha hb hab K _ _ _ _ _ _ _ _ _ _ _ pre t consts supplied u target xv hua htb ho v
   obtain ⟨f, hroute, hmf⟩ := covered_request_converts e he m a b ha hb hab
-  have h1 := table_offset_refusal
-  rw [List.all_eq_true] at h1
-  have h2 := h1 e (List.mem_filter.mpr ⟨he, by simpa using hne⟩)
-  unfold EquivRec.refusesOffsetInput at h2
-  rw [List.all_eq_true] at h2
-  have h3 := h2 (a, b) (mem_orderedPairs ha hb hab)
-  have hx : f.xInArith = true := by
-    cases m
-    · cases hc : e.modeFormula Mode.copy a b with
+  have hx : (f.xInArith || (pr.isSome && f.xInPow)) = true := by
+    rcases hguard with hne | hpr
+    · have h1 := table_offset_refusal
+      rw [List.all_eq_true] at h1
+      have h2 := h1 e (List.mem_filter.mpr ⟨he, by simpa using hne⟩)
+      unfold EquivRec.refusesOffsetInput at h2
+      rw [List.all_eq_true] at h2
+      have h3 := h2 (a, b) (mem_orderedPairs ha hb hab)
+      cases hc : e.modeFormula Mode.copy a b with
       | none => simp [hc] at h3
       | some f1 =>
         cases hi : e.modeFormula Mode.inplace a b with
         | none => simp [hc, hi] at h3
         | some f2 =>
-          simp only [hc, hi, Bool.and_eq_true] at h3
-          rw [hc] at hmf; injection hmf with hmf; subst hmf; exact h3.1
-    · cases hc : e.modeFormula Mode.copy a b with
+          simp only [hc, hi, Bool.and_eq_true, Bool.false_and, Bool.or_false] at h3
+          cases m
+          · rw [hc] at hmf; injection hmf with hmf; subst hmf; simp [h3.1]
+          · rw [hi] at hmf; injection hmf with hmf; subst hmf; simp [h3.2]
+    · have h1 := table_offset_refusal_pow
+      rw [List.all_eq_true] at h1
+      have h2 := h1 e he
+      unfold EquivRec.refusesOffsetInput at h2
+      rw [List.all_eq_true] at h2
+      have h3 := h2 (a, b) (mem_orderedPairs ha hb hab)
+      cases hc : e.modeFormula Mode.copy a b with
       | none => simp [hc] at h3
       | some f1 =>
         cases hi : e.modeFormula Mode.inplace a b with
         | none => simp [hc, hi] at h3
         | some f2 =>
-          simp only [hc, hi, Bool.and_eq_true] at h3
-          rw [hi] at hmf; injection hmf with hmf; subst hmf; exact h3.2
+          simp only [hc, hi, Bool.and_eq_true, Bool.true_and] at h3
+          cases m
+          · rw [hc] at hmf; injection hmf with hmf; subst hmf; simpa [hpr] using h3.1
+          · rw [hi] at hmf; injection hmf with hmf; subst hmf; simpa [hpr] using h3.2
   subst hua htb
-  exact offset_input_refused pre t equivalences consts supplied m u target uSelf xv (some e.name) f
+  exact offset_input_refused pr pre t equivalences consts supplied m u target xv (some e.name) f
     (by simpa [inUnitsRoute] using hroute) hx ho v
+
+/-- in a library whose `power`/`sqrt` refuse offset units the full statement holds -/
+theorem C09_offset_holds_if_pow_refuses (err : Err) : C09_offset_full (some err) :=
+  fun e he => C09_offset_partial (some err) e he (Or.inr rfl)
 
 section counterexample
 open RatCarrier
@@ -502,15 +528,16 @@ def fluxSI : UnitV Rat := ⟨UExpr.one, 1, 0, Ref.C09.dFlux, true⟩
 
 def constsRat : List (String × Rat) := equivConstants.map (fun c => (c.1, ratOfBits c.2.1))
 
-/-- what the model (and unyt) returns for `(25 °C).to_equivalent("W/m**2", "effective_temperature")` -/
+/-- what the model of a library whose `power` accepts offset units (and such a unyt) returns for
+    `(25 °C).to_equivalent("W/m**2", "effective_temperature")` -/
 def offsetWitness : Except Err Rat :=
-  convertValue (defaultPrefixes Rat) (defaultLut Rat) equivalences constsRat [] .copy degCRat 1 25 fluxSI
-    (some "effective_temperature")
+  convertValue none (defaultPrefixes Rat) (defaultLut Rat) equivalences constsRat [] .copy degCRat 25
+    fluxSI (some "effective_temperature")
 
-/-- **counterexample** (exact arithmetic on the regenerated tables): 25 °C is converted to
-    `σ·25⁴` (≈ 0.022 W/m²) — the reading taken as an absolute temperature — whereas the
-    temperature it denotes, 298.15 K, radiates `σ·298.15⁴` (≈ 448 W/m²).  The harness replays
-    this input on the real code on every run. -/
+/-- **counterexample** (exact arithmetic on the regenerated tables) for a library whose
+    `power` accepts offset units: 25 °C is converted to `σ·25⁴` (≈ 0.022 W/m²) — the reading
+    taken as an absolute temperature — whereas the temperature it denotes, 298.15 K, radiates
+    `σ·298.15⁴` (≈ 448 W/m²).  The harness replays this input on the real code on every run. -/
 theorem C09_offset_counterexample :
     (match offsetWitness, constsRat.find? (fun c => c.1 == "σ") with
       | .ok v, some σ => v == σ.2 * 390625 && v != σ.2 * ((25 + 27315 / 100) ^ 4 : Rat) && decide (0 < σ.2)
@@ -518,8 +545,8 @@ theorem C09_offset_counterexample :
     ∧ (degCRat.offset != 0) = true ∧ degCRat.dim = Ref.C09.dTemperature := by
   decide +kernel
 
-/-- hence the full statement fails -/
-theorem C09_offset_full_false : ¬ C09_offset_full := by
+/-- hence the full statement fails in such a library -/
+theorem C09_offset_fails_if_pow_accepts : ¬ C09_offset_full none := by
   intro hfull
   have hw := C09_offset_counterexample
   cases hv : offsetWitness with
@@ -529,11 +556,20 @@ theorem C09_offset_full_false : ¬ C09_offset_full := by
         ∧ Ref.C09.dFlux ∈ e.dims ∧ Ref.C09.dTemperature ≠ Ref.C09.dFlux := by decide +kernel
     obtain ⟨e, he, hn, ha, hb, hab⟩ := hmem
     have := hfull e he .copy _ _ ha hb hab Rat (defaultPrefixes Rat) (defaultLut Rat) constsRat []
-      degCRat fluxSI 1 25 hw.2.2 rfl hw.2.1 v
+      degCRat fluxSI 25 hw.2.2 rfl hw.2.1 v
     rw [hn] at this
     exact this hv
 
 end counterexample
+
+/-- the status of the clause for the library being checked follows the regenerated probe
+    `Generated.powRefuses` (what `np.power` does with 1 °C): the full statement holds exactly when
+    `power` refuses offset units.  (On unyt as pinned the probe is `none`: the clause fails, finding
+    `offset-input|effective_temperature|…`; after a `Unit.__pow__` refusal is applied it holds.) -/
+theorem C09_offset_status :
+    (∀ err, powRefuses = some err → C09_offset_full powRefuses)
+    ∧ (powRefuses = none → ¬ C09_offset_full powRefuses) :=
+  ⟨fun err h => h ▸ C09_offset_holds_if_pow_refuses err, fun h => h ▸ C09_offset_fails_if_pow_accepts⟩
 
 /-! ### in-place requests versus copying requests, at the level of the numbers -/
 
@@ -544,28 +580,22 @@ theorem table_inplace_syntactic :
       e.modeFormula .inplace p.1 p.2 == e.modeFormula .copy p.1 p.2)) = true := by
   decide +kernel
 
-/-- full statement: `convert_to_equivalent` / `convert_to_units(equivalence=)` yield what
-    `to_equivalent` / `to` yield, for every covered request, unit spelling, value and keyword -/
+/-- `convert_to_equivalent` / `convert_to_units(equivalence=)` yield what `to_equivalent` / `to`
+    yield: every covered request, every unit spelling, value and keyword, on every carrier -/
 def C09_inplace_full : Prop :=
   ∀ e ∈ equivalences, ∀ (a b : Dim), a ∈ e.dims → b ∈ e.dims → a ≠ b →
     ∀ (K : Type) [Add K] [Sub K] [Mul K] [Div K] [OfNat K 0] [OfNat K 1] [BEq K] [RPow K]
-      [HasSqrt K] [OfRat K] [OfBits K]
+      [HasSqrt K] [OfRat K] [OfBits K] (pr : Option Err)
       (pre : Prefixes K) (t : Lut K) (consts supplied : List (String × K)) (u target : UnitV K)
-      (uSelf xv : K), u.dim = a → target.dim = b →
-        convertValue pre t equivalences consts supplied .inplace u uSelf xv target (some e.name)
-          = convertValue pre t equivalences consts supplied .copy u uSelf xv target (some e.name)
+      (xv : K), u.dim = a → target.dim = b →
+        convertValue pr pre t equivalences consts supplied .inplace u xv target (some e.name)
+          = convertValue pr pre t equivalences consts supplied .copy u xv target (some e.name)
 
-/-- it holds whenever the input's own unit expression does not simplify to a coefficient
-    (`uSelf = 1`: no two atoms of the same dimension) — explicit guard -/
-theorem C09_inplace_partial :
-    ∀ e ∈ equivalences, ∀ (a b : Dim), a ∈ e.dims → b ∈ e.dims → a ≠ b →
-    ∀ (K : Type) [Add K] [Sub K] [Mul K] [Div K] [OfNat K 0] [OfNat K 1] [BEq K] [RPow K]
-      [HasSqrt K] [OfRat K] [OfBits K]
-      (pre : Prefixes K) (t : Lut K) (consts supplied : List (String × K)) (u target : UnitV K)
-      (uSelf xv : K), u.dim = a → target.dim = b → (uSelf != 1) = false →
-        convertValue pre t equivalences consts supplied .inplace u uSelf xv target (some e.name)
-          = convertValue pre t equivalences consts supplied .copy u uSelf xv target (some e.name) := by
-  intro e he a b ha hb hab K _ _ _ _ _ _ _ _ _ _ _ pre t consts supplied u target uSelf xv hua htb hself
+/-- it holds (full strength; before the `fix:` to the `out=` post-multiplication of
+    `unyt_array.__array_ufunc__` it needed the guard "the input's unit expression does not
+    simplify to a coefficient") -/
+theorem C09_inplace_holds : C09_inplace_full := by
+  intro e he a b ha hb hab K _ _ _ _ _ _ _ _ _ _ _ pr pre t consts supplied u target xv hua htb
   obtain ⟨f, hrf, hmf⟩ := covered_request_converts e he .copy a b ha hb hab
   obtain ⟨g, hrg, hmg⟩ := covered_request_converts e he .inplace a b ha hb hab
   have h1 := table_inplace_syntactic
@@ -579,42 +609,7 @@ theorem C09_inplace_partial :
     injection h3
   subst hfg hua htb
   unfold convertValue
-  simp only [inUnitsRoute, hrf, hrg, hself, Bool.and_false]
-
-section counterexample2
-open RatCarrier
-
-/-- `K*cm/angstrom`: a temperature unit whose own expression simplifies to `10⁸ K` -/
-def reducibleK : UnitV Rat :=
-  ⟨⟨1, [("K", 1), ("angstrom", -1), ("cm", 1)]⟩, 100000000, 0, Ref.C09.dTemperature, true⟩
-
-def jouleRat : UnitV Rat := ⟨UExpr.one, 1, 0, Ref.C09.dEnergy, true⟩
-
-/-- **counterexample**: `x = 3 K*cm/angstrom`, `thermal`, target J — the copying request
-    returns a number, the in-place request fails (`RecursionError`, a `RuntimeError`).  The
-    harness replays this on the real code on every run. -/
-theorem C09_inplace_counterexample :
-    (match convertValue (defaultPrefixes Rat) (defaultLut Rat) equivalences constsRat [] .copy
-              reducibleK 100000000 3 jouleRat (some "thermal"),
-           convertValue (defaultPrefixes Rat) (defaultLut Rat) equivalences constsRat [] .inplace
-              reducibleK 100000000 3 jouleRat (some "thermal") with
-      | .ok _, .error .RuntimeError => true
-      | _, _ => false) = true := by
-  decide +kernel
-
-theorem C09_inplace_full_false : ¬ C09_inplace_full := by
-  intro hfull
-  have hmem : ∃ e ∈ equivalences, e.name = "thermal" ∧ Ref.C09.dTemperature ∈ e.dims
-      ∧ Ref.C09.dEnergy ∈ e.dims ∧ Ref.C09.dTemperature ≠ Ref.C09.dEnergy := by decide +kernel
-  obtain ⟨e, he, hn, ha, hb, hab⟩ := hmem
-  have h := hfull e he _ _ ha hb hab Rat (defaultPrefixes Rat) (defaultLut Rat) constsRat []
-    reducibleK jouleRat 100000000 3 rfl rfl
-  rw [hn] at h
-  have hw := C09_inplace_counterexample
-  rw [h] at hw
-  split at hw <;> simp_all
-
-end counterexample2
+  simp only [inUnitsRoute, hrf, hrg]
 
 /-! ### the property at full strength -/
 
